@@ -632,7 +632,10 @@ def build(unit_dir, repo='/repo', mutate=None, auto_items=None):
             if open_impl is not None:
                 emit('}')
             if header:
-                emit(rewrite_paths(header, counts) + ' {')
+                hdr_out = unit.get('impl_header_rewrite', {}).get(header, header)
+                if hdr_out != header:
+                    _count(counts, 'R13.inherent')
+                emit(rewrite_paths(hdr_out, counts) + ' {')
             open_impl = header or None
         if not header and open_impl is not None:
             pass
